@@ -26,6 +26,10 @@ func (g *c11gen) str() string {
 	if g.r.N(25) == 0 { // strings that look like other kinds of data must stay strings
 		return []string{"2015-03-04T01:02:03Z", "2015-03-04T01:02:03.000000001+01:00", "12", "-1.5e3", "true", "nil", "null", "[1 2]", "{\"a\":1}", "0x1F", "Atype", "zKeyOrder", "50% off %s %d", "NaN"}[g.r.N(14)]
 	}
+	if g.r.N(20) == 0 { // the encoders' own punctuation inside a string is content
+		pool := []string{", ]", ", }", "a, ]b", "x, }y", "\", \"", "\":\"", "\": ", "{\"Atype\":\"x\"}", "[, ]", "}, {", ",]", ",}", "[]", "{}", " , ", "], [", "\"}", "zKeyOrder\":[", "\\\", \\\""}
+		return pool[g.r.N(len(pool))]
+	}
 	n := g.r.N(6)
 	var b strings.Builder
 	for i := 0; i < n; i++ {
@@ -111,6 +115,43 @@ func (g *c11gen) hash(d int, typ string) *zygo.SexpHash {
 		h.HashSet(g.env.MakeSymbol(k), g.value(d-1))
 	}
 	return h
+}
+
+// c11Mutate changes one container nested inside v in place (a new or replaced member of a nested
+// hash, a replaced element of a nested array) and reports whether it found one.
+func c11Mutate(g *c11gen, v zygo.Sexp) bool {
+	var kids []zygo.Sexp
+	switch x := v.(type) {
+	case *zygo.SexpHash:
+		for _, k := range x.KeyOrder {
+			if kid, err := x.HashGet(g.env, k); err == nil {
+				kids = append(kids, kid)
+			}
+		}
+	case *zygo.SexpArray:
+		kids = x.Val
+	}
+	for _, kid := range kids {
+		if kid == v {
+			continue
+		}
+		switch y := kid.(type) {
+		case *zygo.SexpHash:
+			key := g.env.MakeSymbol("k2")
+			if g.r.N(2) == 0 && len(y.KeyOrder) > 0 {
+				key = y.KeyOrder[0].(*zygo.SexpSymbol)
+			}
+			if err := y.HashSet(key, &zygo.SexpStr{S: "changed in place"}); err == nil {
+				return true
+			}
+		case *zygo.SexpArray:
+			if len(y.Val) > 0 {
+				y.Val[0] = &zygo.SexpStr{S: "changed in place"}
+				return true
+			}
+		}
+	}
+	return false
 }
 
 // structural equality: numbers by value, record type names, key order at every level
@@ -315,7 +356,7 @@ func init() {
 			"NaN/Inf floats, uint64 and characters are outside the statement's scalar set and are not generated",
 		},
 		NCases:  func(c *core.Ctx) int { return thorN(c, 3000, 100000) },
-		MustSee: []string{"json_round_trips", "msgpack_round_trips", "json_texts_validated", "string_key_literals", "nested_records"},
+		MustSee: []string{"encodings_after_nested_change", "json_round_trips", "msgpack_round_trips", "json_texts_validated", "string_key_literals", "nested_records"},
 		Run:     c11Run,
 	})
 }
@@ -406,6 +447,29 @@ func c11Run(c *core.Ctx, i int) *core.Result {
 				return res
 			}
 		}
+	}
+	// a container nested inside the value is changed in place: the next encoding must show the change
+	if c11Mutate(g, v) {
+		mutated := ""
+		sut.Protect(func() { mutated = v.SexpString(nil) })
+		for _, codec := range []string{"json", "msgpack"} {
+			o := s.Eval(fmt.Sprintf("(un%s (%s vv))\n", codec, codec), 0)
+			res.Evals++
+			res.Ev("encodings_after_nested_change", 1)
+			if o.Panic != "" {
+				res.Violate("escaped-panic:"+o.Site, o.Panic, printed)
+				return res
+			}
+			if o.Err != nil {
+				res.Violate(codec+"-round-trip-fails", fmt.Sprintf("after a nested change, (un%s (%s v)) fails for v = %s: %s", codec, codec, mutated, o.ErrLine()), mutated)
+				return res
+			}
+			if d := c11Equal(v, o.Val, "v"); d != "" {
+				res.Violate(codec+"-encoding-stale-after-nested-change", fmt.Sprintf("v = %s was encoded, a container nested in it was changed in place (now %s), and the next encoding decodes to %s: %s", printed, mutated, core.Trunc(o.Val.SexpString(nil), 300), d), printed)
+				return res
+			}
+		}
+		printed = mutated
 	}
 	// well-formedness and denotation of the JSON text
 	o := s.Eval("(json vv)\n", 0)
